@@ -1,6 +1,6 @@
 (* C01 - KV store behaves as an ordered map for every operation history.  Statements only. *)
 Require Import List ZArith Lia. Import ListNotations.
-Require Import IW.KV.Node IW.KV.Spec IW.KV.Node_proofs IW.KV.Keys IW.KV.Inst IW.KV.Keys_proofs IW.KV.Skip IW.KV.Skip_proofs IW.Gen.Facts.
+Require Import IW.KV.Node IW.KV.Spec IW.KV.Node_proofs IW.KV.Keys IW.KV.Inst IW.KV.Keys_proofs IW.KV.KeysCompound_proofs IW.KV.Skip IW.KV.Skip_proofs IW.Gen.Facts.
 
 (* For EVERY history of put (plain, no-overwrite, with an update function standing for increment / put-handler),
    get and delete, every choice of skip-list levels (they do not enter this layer) and every comparator that is a
@@ -52,6 +52,27 @@ Proof.
   - unfold NPIVOT, NIDX, SPLIT_PIVOT, KVBLK_IDXNUM. vm_compute. lia.
 Qed.
 Print Assumptions C01_kv_refines_map_intkeys.
+
+(* ... and for compound-key databases (IWDB_COMPOUND_KEYS on byte keys): the key type is the set of keys whose compound part
+   is encodable (0 <= c < 2^63, what IW_SETVNUMBUF64 can write); the comparator is the store's own on their stored form
+   (varint of the compound part, then the key bytes).  Equal only when bytes and compound part are identical. *)
+Theorem C01_kv_refines_map_compound :
+  forall (upd : value -> value -> option value) (ops : list (op ckey value)) (st : nat * chain ckey value),
+    NodeInv ckey value ckey_cmp NIDX (snd st) ->
+    let '(st', outs) := run ckey value ckey_cmp NIDX NPIVOT upd st ops in
+    let '(l', souts) := spec_run ckey value ckey_cmp upd (flat ckey value (snd st)) ops in
+    flat ckey value (snd st') = l' /\ outs = souts /\ NodeInv ckey value ckey_cmp NIDX (snd st').
+Proof.
+  intros upd. apply kv_refines_map.
+  - exact compound_cmp_lt_eq.
+  - exact compound_cmp_antisym.
+  - exact compound_cmp_trans.
+  - unfold NPIVOT, NIDX, SPLIT_PIVOT, KVBLK_IDXNUM. vm_compute. lia.
+Qed.
+Print Assumptions C01_kv_refines_map_compound.
+Theorem C01_compound_keys_eq_iff_identical : forall a b : ckey, ckey_cmp a b = Eq <-> proj1_sig a = proj1_sig b.
+Proof. exact compound_cmp_eq_iff. Qed.
+Print Assumptions C01_compound_keys_eq_iff_identical.
 
 (* "every random skip-list level choice": the multi-level search of _lx_find_bounds / _lx_roll_forward (KV/Skip.v: start
    at the head on any level, roll forward while the next node on that level starts at or before the key, descend) ends
